@@ -147,3 +147,39 @@ Theorem C03_nth_weekday_char : forall o w n t, 0 <= w <= 6 -> n <> 0 -> nth_week
   (n < 0 -> o - 7 * (- n - 1) - 6 <= t <= o - 7 * (- n - 1)).
 Proof. exact nth_weekday_char. Qed.
 Print Assumptions C03_nth_weekday_char.
+
+(* ======== model <-> code tie by TRANSLATION: gen/RdAddGen.v is regenerated from
+   /repo/src/dateutil/relativedelta.py on every run by harness/gen_rd_add.py (fail-closed Python-ast
+   translator, on top of gen/RdMethodsGen.v of harness/gen_rd_methods.py); the generated
+   definitions equal the hand model used by all theorems above, for ALL inputs.  (Imported here, after
+   the model theorems, so that a change of the source breaks only the C03_gen_* obligations.) *)
+From V Require Import rd.RdGenBase gen.RdMethodsGen rd.RdGenThm rd.RdAddGenBase gen.RdAddGen rd.RdAddGenThm.
+
+Theorem C03_gen_add_dt : forall d o, gen_add_dt (obj_of_rd d) o = add_dt d o.
+Proof. exact gen_add_dt_correct. Qed.
+Print Assumptions C03_gen_add_dt.
+
+Theorem C03_gen_radd_dt : forall d o, gen_radd_dt (obj_of_rd d) o = radd d o.
+Proof. exact gen_radd_dt_correct. Qed.
+Print Assumptions C03_gen_radd_dt.
+
+Theorem C03_gen_rsub_dt : forall d o, gen_rsub_dt (obj_of_rd d) o = rsub d o.
+Proof. exact gen_rsub_dt_correct. Qed.
+Print Assumptions C03_gen_rsub_dt.
+
+Theorem C03_gen_init_yearday : forall o yearday nlyearday,
+  gen_init_yearday o yearday nlyearday = hand_yearday o yearday nlyearday.
+Proof. exact gen_init_yearday_correct. Qed.
+Print Assumptions C03_gen_init_yearday.
+
+Theorem C03_gen_mk : forall k w, conv_wd (k_wd k) = Ok w ->
+  bind (gen_init_yearday (raw_obj k w) (k_yearday k) (k_nlyearday k)) (fun o => of_gres (gen_fix o))
+  = lift_rd (mk k).
+Proof. exact gen_mk_correct. Qed.
+Print Assumptions C03_gen_mk.
+
+(* the specification theorem, stated directly about the translated source *)
+Theorem C03_gen_add_dt_spec : forall d o, wf_rd d = true -> valid_dt o = true ->
+  res_opt (gen_add_dt (obj_of_rd d) o) = spec_add d o.
+Proof. exact gen_add_dt_spec. Qed.
+Print Assumptions C03_gen_add_dt_spec.
